@@ -70,7 +70,7 @@ class CHECK(core.Check):
                "subclasses in which only open/accept are replaced) over socket.socketpair doubles, DNS double, scripted "
                "application; per-serviceAll comparison of delivered/served counts with the Lean model, final comparison of "
                "the delivered responses and of the framing of every head on the wire (read by an independent byte reader)",
-               "fix patches assumed applied: fixes/D17 (Responder.reset recomputes chunkable) and fixes/D31b (delivered body "
+               "the model describes the code as repaired by fixes/D17 (Responder.reset recomputes chunkable) and fixes/D31b (delivered body "
                "is a copy)"]
     PARTIAL = ["message-level model: response heads and chunk framing are abstract items (their byte-level round trip is C30); "
                "one connection, HTTP/1.1 requests without 'Connection: close', applications that call start_response once "
